@@ -380,7 +380,8 @@ class sptenmat:
             np.zeros(self.shape, order=self.order), self.rdims, self.cdims, self.tshape
         )
         # Assign nonzero values
-        result[tuple(self.subs.transpose())] = np.squeeze(self.vals)
+        if self.subs.size > 0:
+            result[tuple(self.subs.transpose())] = np.squeeze(self.vals, axis=1)
         return result
 
     @property
